@@ -179,6 +179,17 @@ macro_rules
                simp only [wp_saveParams, allocVal, wp_allocV]
                exact Same.mk _ _ _ (by simp [St.saveParams, St.allocV, modifyLast_length, hq3])))
 
+theorem tag_wp (t : St) (q : List (List Loc)) (l : Loc) : tagParamAlias (t.wp q) l = (tagParamAlias t l).wp q := by
+  unfold tagParamAlias
+  by_cases hc : ((t.cell l).ret && t.isNamed l) = true
+  · have hc' : (((t.wp q).cell l).ret && (t.wp q).isNamed l) = true := hc
+    rw [if_pos hc', if_pos hc]; rfl
+  · have hc' : ¬ (((t.wp q).cell l).ret && (t.wp q).isNamed l) = true := hc
+    rw [if_neg hc', if_neg hc]
+
+theorem tag_params_len (t : St) (l : Loc) : (tagParamAlias t l).params.length = t.params.length := by
+  unfold tagParamAlias; split <;> rfl
+
 theorem run_wp_step (ρ : List FunDef) (f : Nat)
     (ih : ∀ j s p, p.length = s.params.length → Same (run ρ f j s) (run (ρ.map allUnusedFun) f (allUnusedJob j) (s.wp p))) :
     ∀ j s p, p.length = s.params.length → Same (run ρ (f + 1) j s) (run (ρ.map allUnusedFun) (f + 1) (allUnusedJob j) (s.wp p)) := by
@@ -683,9 +694,10 @@ theorem run_wp_step (ρ : List FunDef) (f : Nat)
             | (by_cases hr : isRefDecl lhs = true
                · simp only [hr, if_true, wp_setCell]; exact Same.mk _ _ _ (by simpa [St.setCell] using hq2)
                · simp only [hr, Bool.false_eq_true, if_false]
-                 have hc := same_clone t2 q2 hq2 r
-                 generalize cloneIfNecessary t2 r = c1 at hc ⊢
-                 generalize cloneIfNecessary (t2.wp q2) r = c2 at hc ⊢
+                 rw [tag_wp]
+                 have hc := same_clone (tagParamAlias t2 r) q2 (by rw [tag_params_len]; exact hq2) r
+                 generalize cloneIfNecessary (tagParamAlias t2 r) r = c1 at hc ⊢
+                 generalize cloneIfNecessary ((tagParamAlias t2 r).wp q2) r = c2 at hc ⊢
                  obtain ⟨o1, u1⟩ := c1
                  obtain ⟨o2, u2⟩ := c2
                  obtain ⟨k1, r1, hr1, k2⟩ := hc
